@@ -17,7 +17,7 @@ if [ $d0 -eq 0 ] && [ $d1 -ne 0 ] && echo "$tests" | grep -q "^91 passed"; then
   /venv/bin/python - "$src/meta.json" "/verif/seeded/$id/meta.json" "$id" <<'PY'
 import json,sys
 m=json.load(open(sys.argv[1])); m["id"]=sys.argv[3]
-m["origin"]="fresh sub-agent given only the property text and a scratch worktree of /repo at HEAD (round J)"
+m["origin"]="fresh sub-agent given only the property text and a scratch worktree of /repo at HEAD (round K)"
 m["confirmed"]="tools/seedadd.sh: scratch worktree, demo exits 0 without the patch; with it 91 tests pass and demo exits non-zero"
 m.setdefault("caught_by",[])
 json.dump(m,open(sys.argv[2],"w"),indent=1)
